@@ -69,6 +69,8 @@ type Transport struct {
 	HeightsCh chan *HeightsReq
 	// Sched, when set, parks every request until the scheduler releases it.
 	Sched *Sched
+	// OnHeights decides the tip reported to the sync loop in scheduled mode.
+	OnHeights func() uint32
 }
 
 // HeightsReq is a daemon heights poll handed to the runner.
@@ -168,6 +170,12 @@ func (t *Transport) RoundTrip(req *http.Request) (*http.Response, error) {
 	}
 
 	tip := t.Tip()
+	if rq.Method == "heights" && caller == "DBlockSync" && t.OnHeights != nil && !t.isDown() {
+		t.mu.Lock()
+		t.tip = t.OnHeights()
+		tip = t.tip
+		t.mu.Unlock()
+	}
 	if rq.Method == "heights" && caller == "DBlockSync" && t.HeightsCh != nil && !t.isDown() {
 		hr := &HeightsReq{Reply: make(chan uint32)}
 		select {
